@@ -16,5 +16,5 @@ CONSTANTS
   Nauth1 = 48
   Nauth2 = 256
   Nauth5 = 64
-  Enforce = {"quiet", "signs-only-authentic", "no-response-on-error", "response-shape", "unknown-event"}
+  Enforce = {"quiet", "signs-only-authentic", "no-response-on-error", "response-shape", "only-own-type-accepted", "unknown-event"}
 CHECK_DEADLOCK FALSE
